@@ -202,8 +202,11 @@ func buildGrowing(scratch string, seed uint64, kind string, n int) (*gWorld, err
 func (w *gWorld) sequences(length int) [][]string {
 	var out [][]string
 	n := len(w.Ents)
-	var rec func(seq []string, arrived, removed uint)
-	rec = func(seq []string, arrived, removed uint) {
+	// "*k" (bugs only): a comment of the present bug k is edited through the cache, addressed by its
+	// true combined id: the first edit of a bug goes to its create comment, the second to its last
+	// comment (the same one when it has only one); at most two edits per bug
+	var rec func(seq []string, arrived, removed uint, edits [8]int)
+	rec = func(seq []string, arrived, removed uint, edits [8]int) {
 		if len(seq) == length {
 			out = append(out, append([]string{}, seq...))
 			return
@@ -213,17 +216,22 @@ func (w *gWorld) sequences(length int) [][]string {
 			bit := uint(1) << k
 			if arrived&bit == 0 {
 				more = true
-				rec(append(seq, fmt.Sprintf("+%d", k)), arrived|bit, removed)
+				rec(append(seq, fmt.Sprintf("+%d", k)), arrived|bit, removed, edits)
 			} else if removed&bit == 0 {
 				more = true
-				rec(append(seq, fmt.Sprintf("-%d", k)), arrived, removed|bit)
+				rec(append(seq, fmt.Sprintf("-%d", k)), arrived, removed|bit, edits)
+				if w.Kind == "bugs" && edits[k] < 2 {
+					e2 := edits
+					e2[k]++
+					rec(append(seq, fmt.Sprintf("*%d", k)), arrived, removed, e2)
+				}
 			}
 		}
 		if !more {
 			out = append(out, append([]string{}, seq...))
 		}
 	}
-	rec(nil, 0, 0)
+	rec(nil, 0, 0, [8]int{})
 	return out
 }
 
@@ -238,6 +246,8 @@ type gRun struct {
 	w       *gWorld
 	c       *cache.RepoCache
 	present map[int]bool
+	edits   map[int]int
+	refused string // set by an edit the cache refused: the comment was not found under its true combined id
 	// earlier[api][prefix] = answer given at an earlier resolve step of this run when it was right
 	earlier map[string]map[string]string
 }
@@ -259,13 +269,34 @@ func (w *gWorld) start() (*gRun, error) {
 	if err != nil {
 		return nil, err
 	}
-	return &gRun{w: w, c: c, present: map[int]bool{}, earlier: map[string]map[string]string{}}, nil
+	return &gRun{w: w, c: c, present: map[int]bool{}, edits: map[int]int{}, earlier: map[string]map[string]string{}}, nil
 }
 
 func (r *gRun) apply(ev string) (kind string, err error) {
 	var k int
 	fmt.Sscanf(ev[1:], "%d", &k)
 	e := r.w.Ents[k]
+	if ev[0] == '*' {
+		vctl.SetActor("A")
+		target := e.Comment[0]
+		if r.edits[k] > 0 {
+			target = e.Comment[len(e.Comment)-1]
+		}
+		r.edits[k]++
+		bc, err := r.c.Bugs().Resolve(entity.Id(e.Id))
+		if err != nil {
+			return "edit", err
+		}
+		author, err := r.c.Identities().Resolve(entity.Id(r.w.AuthorId))
+		if err != nil {
+			return "edit", err
+		}
+		if _, err := bc.EditCommentRaw(author, e.Unix+int64(100+r.edits[k]), entity.CombinedId(target.Combined), fmt.Sprintf("edited %d", r.edits[k]), nil); err != nil {
+			r.refused = fmt.Sprintf("editing comment %s of bug %s addressed by its combined id failed: %v", target.Combined[:10], e.Id[:10], err)
+			return "edit", nil
+		}
+		return "edit", bc.Commit()
+	}
 	if ev[0] == '-' {
 		vctl.SetActor("A")
 		if r.w.Kind == "bugs" {
@@ -432,7 +463,7 @@ func (w *gWorld) runOne(col *collector, seq []string, at []int, onlyApi, onlyPre
 	if err != nil {
 		return 0, 0, err
 	}
-	defer r.c.Close()
+	defer func() { r.c.Close() }()
 	atSet := map[int]bool{}
 	for _, p := range at {
 		atSet[p] = true
@@ -442,11 +473,37 @@ func (w *gWorld) runOne(col *collector, seq []string, at []int, onlyApi, onlyPre
 		if err != nil {
 			return inputs, calls, fmt.Errorf("events %v, event %d (%s): %w", seq, pos, ev, err)
 		}
+		if r.refused != "" {
+			if onlyApi == "" || onlyApi == "bug.EditComment" {
+				col.add(finding{"growing-population", "growing-population/bug.EditComment:true-combined-id-not-found/after-edit",
+					fmt.Sprintf("growing bugs population, events %v, event %d (%s): %s", seq, pos, ev, r.refused),
+					map[string]any{"part": "d", "seed": w.seed, "kind": w.Kind, "entities": len(w.Ents), "events": seq[:pos+1], "resolve_after": []int{pos}, "api": "bug.EditComment", "prefix": ""}})
+				out["VIOLATION edit refused"]++
+			}
+			r.refused = ""
+		}
 		if atSet[pos] {
 			i, c := r.resolveAll(col, seq, at, pos, kind, onlyApi, onlyPrefix, out)
 			inputs += i
 			calls += c
 		}
+	}
+	// once more through a cache reopened from its files (sequences with an edited comment)
+	if w.Kind == "bugs" && strings.Contains(strings.Join(seq, ""), "*") {
+		if err := r.c.Close(); err != nil {
+			return inputs, calls, err
+		}
+		repo, err := repository.OpenGoGitRepo(filepath.Join(w.dir, "A"), world.Namespace, nil)
+		if err != nil {
+			return inputs, calls, err
+		}
+		if r.c, err = cache.NewRepoCacheNoEvents(repo); err != nil {
+			return inputs, calls, err
+		}
+		r.earlier = map[string]map[string]string{}
+		i, c := r.resolveAll(col, seq, at, len(seq)-1, "reopen", onlyApi, onlyPrefix, out)
+		inputs += i
+		calls += c
 	}
 	return
 }
